@@ -59,7 +59,8 @@ def _options(rng, geom, level=None, expert=None, want_skip=True, bits=None):
     if level is None:
         level = rng.randint(0, 6)
     es = 10 - level if level < 6 else rng.choice([4, 3, 2, 0])
-    toks.append(f"speed={es},{rng.randint(0, 10)}")
+    # EncoderOptions::GetSpeed() is max(encoding speed, decoding speed)
+    toks.append(f"speed={es},{rng.randint(0, es)}" if rng.random() < 0.5 else f"speed={rng.randint(0, es)},{es}")
     by_type = {}
     for i, a in enumerate(geom.atts):
         if a.dtype != DT["f32"]:
@@ -100,7 +101,7 @@ def _case(rng, geom, checks, fam, **kw):
     toks, info = _options(rng, geom, **kw)
     lvl = [t for t in toks if t.startswith("speed=")][0]
     c = e2e.make_case(geom, toks, info, checks, tags=("pc", "kd", "kdfam:" + fam,
-                                                     "kdlevel:" + str(min(10 - int(lvl[6:].split(",")[0]), 6)),
+                                                     "kdlevel:" + str(min(10 - max(int(x) for x in lvl[6:].split(",")), 6)),
                                                      "expert" if info["expert"] else "encoder"))
     c.mtag = e2e.model_support_tag
     return c
